@@ -198,8 +198,8 @@ def run_V1_group(ctx, case):
     return agg
 
 def pairs_V1(ctx, kind):
+    if kind == 'CBRANCH': return [(0, 0), (5, 0)] if ctx['tier'] == 'quick' else [(d, 0) for d in range(8)]      # the source register field is not used by CBRANCH
     if ctx['tier'] != 'quick': return [(d, s_) for d in range(8) for s_ in range(8)]
-    if kind == 'CBRANCH': return [(0, 0), (5, 0)]
     return [(d, d) for d in range(8)] + [(d, (d + 1) % 8) for d in range(8)]
 
 def jobs_V1(ctx):
@@ -270,7 +270,7 @@ def run_V0(ctx, case):
 LEMMAS = {
     'V1': dict(jobs=jobs_V1, run=run_V1_group, units=['rv64'], rv64=True, functions=['h_* (30 scalar emitters of jit_compiler_rv64.cpp)', 'emitImm32', 'genAddressReg', 'genAddressRegImm', 'genAddressRegDst', 'loadFromScratchpad', 'emitRcpLiteral1', 'emitJump', 'CodeBuffer::emit/emitAt', 'opcodeMap1[256]'],
                doc='per-instruction translation validation of the scalar RISC-V back-end: the RV64GC code emitted for an instruction word, executed under the RV64 model from an arbitrary machine state in the runtime\'s register allocation, gives the spec step: r0-r7, f, e, whole scratchpad, rounding mode (frm), branch target = instructionOffsets[next], last-writer table; a0-a3, mask, literal and every other register preserved (x8, x9, f24, f25 are scratch); length <= 56; accesses in bounds',
-               bound='first opcode of each of the 29 ranges (quick) / first and last (thorough); register pairs (d,d) and (d,d+1) for every d (quick; CBRANCH: d in {0,5}) / all 64 (thorough); mod and imm32 symbolic; reciprocal-literal counts {0,5,12,237,238} (quick) / 9 values; any register file, scratchpad, frm in 0..3, both versions',
+               bound='first opcode of each of the 29 ranges (quick) / first and last (thorough); register pairs (d,d) and (d,d+1) for every d (quick; CBRANCH: d in {0,5}) / all 64 (thorough; CBRANCH: every d); mod and imm32 symbolic; reciprocal-literal counts {0,5,12,237,238} (quick) / 9 values; any register file, scratchpad, frm in 0..3, both versions',
                symbolic='mod, imm32, r0-r7, f/e/a, scratchpad, E masks, frm, every other register, reciprocal literal slots, program index, last-writer table, earlier instruction offsets',
                stubs=['FP ops := uninterpreted functions of (rounding mode, operands), shared with the spec', 'randomx_reciprocal_fast := uninterpreted rcp (R1/R2)', 'RV64 semantics: engine/rv64sem.py (ISA manual transcription; decoding cross-checked against llvm-objdump, semantics NOT validated on hardware)',
                       'frame facts assumed: x5 = scratchpad, x3 = literal pool + 2048, mask/literal registers loaded from the pool slots V0 checks, x1 = L3 mask + 56'],
